@@ -50,6 +50,9 @@ const (
 	opBatch
 	opIterPrefix
 	opIterStart
+	// opBatchReuse: a batch object written TWICE: Batch{W[0]}.Write(); W[1] applied directly; the same batch written
+	// again (goleveldb and memdb both keep a written batch's operations: the second Write replays them)
+	opBatchReuse
 )
 
 type wr struct {
@@ -95,6 +98,8 @@ func (o op) String() string {
 		return "Batch{" + strings.Join(s, "; ") + "}.Write()"
 	case opIterPrefix:
 		return fmt.Sprintf("IteratorPrefix(%s)", qb(keys[o.P]))
+	case opBatchReuse:
+		return "b:=Batch{" + o.W[0].String() + "}; b.Write(); " + o.W[1].String() + " (direct); b.Write()"
 	default:
 		var st []byte
 		if o.S >= 0 {
@@ -104,10 +109,12 @@ func (o op) String() string {
 	}
 }
 
-func (o op) mutating() bool { return o.Kind == opSet || o.Kind == opDelete || o.Kind == opBatch }
+func (o op) mutating() bool {
+	return o.Kind == opSet || o.Kind == opDelete || o.Kind == opBatch || o.Kind == opBatchReuse
+}
 
 func (o op) kindName() string {
-	return [...]string{"get", "set", "delete", "batch", "iterprefix", "iterstart"}[o.Kind]
+	return [...]string{"get", "set", "delete", "batch", "iterprefix", "iterstart", "batch-written-twice"}[o.Kind]
 }
 
 func buildOps() []op {
@@ -133,6 +140,13 @@ func buildOps() []op {
 	for _, a := range singles {
 		for _, b := range singles {
 			ops = append(ops, op{Kind: opBatch, W: []wr{a, b}})
+		}
+	}
+	for _, a := range singles {
+		for _, x := range singles {
+			if x.K == a.K && x != a {
+				ops = append(ops, op{Kind: opBatchReuse, W: []wr{a, x}})
+			}
 		}
 	}
 	for p := range keys {
@@ -240,6 +254,23 @@ func exec(db dbm.DB, o *op) (r result) {
 			}
 		}
 		b.Write()
+	case opBatchReuse:
+		b := db.NewBatch()
+		direct := func(w wr) {
+			if w.Del {
+				db.Delete(keys[w.K])
+			} else {
+				db.Set(keys[w.K], vals[w.V])
+			}
+		}
+		if o.W[0].Del {
+			b.Delete(keys[o.W[0].K])
+		} else {
+			b.Set(keys[o.W[0].K], vals[o.W[0].V])
+		}
+		b.Write()
+		direct(o.W[1])
+		b.Write()
 	case opIterPrefix:
 		r = drain(db.IteratorPrefix(keys[o.P]))
 	case opIterStart:
@@ -278,6 +309,13 @@ func applyModel(cur []int8, o *op) {
 			} else {
 				cur[w.K] = int8(w.V)
 			}
+		}
+	case opBatchReuse:
+		// W[0], W[1], W[0] again: both touch the same key, the replayed batch operation wins
+		if w := o.W[0]; w.Del {
+			cur[w.K] = -1
+		} else {
+			cur[w.K] = int8(w.V)
 		}
 	}
 }
